@@ -8,6 +8,7 @@ pub mod c03;
 pub mod c04;
 pub mod c05;
 pub mod c08;
+pub mod c12;
 pub mod common;
 pub mod dynamic;
 pub mod c17;
@@ -20,6 +21,7 @@ pub fn run(ctx: &Ctx) -> i32 {
         "C04" => c04::run(ctx),
         "C05" => c05::run(ctx),
         "C08" => c08::run(ctx),
+        "C12" => c12::run(ctx),
         "C17" => c17::run(ctx),
         other => {
             eprintln!("rvmon: no monitor for property {other}");
